@@ -135,7 +135,8 @@ def check_doc(h, tag, kind, info, text, untagged, ctx):
             elif st == 'yamlerror' and not isinstance(res, yaml.constructor.ConstructorError):
                 ctx.violation(case, dict(who, what='object-construction tag rejected with another error class', exc=type(res).__name__), None)
             elif st == 'other':
-                ctx.violation(case, dict(who, what='object-construction tag ended in a non-YAML exception', exc=type(res).__name__, msg=str(res)[:200]), None)
+                # the tag was not honoured, but the property asks for a constructor error
+                ctx.violation(case, dict(who, what='object-construction tag ended in a non-YAML exception instead of a constructor error', exc=type(res).__name__, msg=str(res)[:200]), None)
             else:
                 ctx.stat('rejected_constructor_error')
         elif suffix.startswith('name:'):
@@ -161,7 +162,8 @@ def check_doc(h, tag, kind, info, text, untagged, ctx):
                 else:
                     ctx.stat('name_rejected')
             elif st == 'other':
-                ctx.violation(case, dict(who, what='python/name ended in a non-YAML exception', exc=type(res).__name__, msg=str(res)[:200]), None)
+                # not demanded by this property (C03/C14 own "only YAML errors"): evidence, not a verdict
+                ctx.stat('nonyaml_exception_seen:' + type(res).__name__)
         else:
             if st == 'ok':
                 bad = c01.walk_types(res, c01.PLAIN_TYPES + (tuple, complex), allow_tuple2=True)
